@@ -210,11 +210,24 @@ func (y *Choice) addCase(c *ChoiceCase) error {
 // any nesting depth: choice and case do not show in a data path, and what a case holds
 // may have been added (uses, augment) after the choice was indexed by its parent
 func findInChoices(defs []Definition, ident string) Definition {
+	return findInChoicesOnce(defs, ident, nil)
+}
+
+// a recursive grouping whose recursion passes through nothing but choices and cases leaves a choice that
+// (indirectly) holds itself: each choice is looked into once
+func findInChoicesOnce(defs []Definition, ident string, seen map[*Choice]bool) Definition {
 	for _, d := range defs {
 		c, isChoice := d.(*Choice)
 		if !isChoice {
 			continue
 		}
+		if seen[c] {
+			continue
+		}
+		if seen == nil {
+			seen = make(map[*Choice]bool)
+		}
+		seen[c] = true
 		for _, cid := range c.CaseIdents() {
 			k := c.cases[cid]
 			for _, kdef := range k.dataDefs {
@@ -222,7 +235,7 @@ func findInChoices(defs []Definition, ident string) Definition {
 					return kdef
 				}
 			}
-			if x := findInChoices(k.dataDefs, ident); x != nil {
+			if x := findInChoicesOnce(k.dataDefs, ident, seen); x != nil {
 				return x
 			}
 		}
